@@ -288,6 +288,19 @@ def obtain_deliver(ctx, rng, n):
                 got[1].append("local-change")
                 if len(mixed[1]) != 2:
                     ctx.violation("C03/obtain-shares-state", "changing an obtained tuple's list changed the remote list", dict(obj=repr(obj)))
+            # deliver() of something the peer already owns (a proxy) must still produce an independent copy over there,
+            # and so must obtain()/deliver() chained in either order
+            conn.execute("rv_orig = [1, 2, [3]]")
+            orig = conn.namespace["rv_orig"]
+            dup = classic.deliver(conn, orig)
+            if not is_netref(dup) or conn.modules.builtins.id(dup) == conn.modules.builtins.id(orig):
+                ctx.violation("C03/deliver-of-proxy-not-a-copy", "deliver() of a proxy handed back the peer's original object, not an independent copy", dict(obj="rv_orig"))
+            else:
+                dup[2].append("change-to-the-copy")
+                if classic.obtain(conn.eval("rv_orig")) != [1, 2, [3]] or classic.obtain(orig) != [1, 2, [3]] or classic.obtain(dup) != [1, 2, [3, "change-to-the-copy"]]:
+                    ctx.violation("C03/deliver-shares-state", "changing the delivered copy of a peer-owned object changed the original", dict(obj="rv_orig"))
+            ctx.count("deliver_of_proxies")
+            del orig, dup
             loc = [1, [2]]
             cp = classic.obtain(loc)
             if cp != loc or cp is loc or cp[1] is loc[1]:
